@@ -11,11 +11,12 @@ namespace HInv
 variable {T L : Nat} {D : DigestFn L} {cfg : MCfg} {α : Type} {o : ElemsOps α}
   {Inv : Nat → List Nat → α → Prop} {rr : Nat}
 
-theorem opsSpec (S : OpsSpec T L D cfg o Inv rr) (hT : legalThreshold T = true) (hc : CfgFor cfg T L) :
-    OpsSpec T L D cfg (HkeyElems.ops o) (HInv T L D o Inv rr) (rr + 1) where
+theorem opsStruct (S : OpsStruct T L D o Inv rr) :
+    OpsStruct T L D (HkeyElems.ops o) (HInv T L D o Inv rr) (rr + 1) where
   level_eq := by intro ℓ path e H; have := H.1; omega
   keys := by intro ℓ path e H; exact H.keys S
   distinct := by intro ℓ path e H; exact H.distinct S
+  ordered := by intro ℓ path e H; exact H.ordered S
   count_pos := by intro ℓ path e H; exact H.count_pos S
   two_keys := by
     intro ℓ path e H h1 h2
@@ -55,6 +56,10 @@ theorem opsSpec (S : OpsSpec T L D cfg o Inv rr) (hT : legalThreshold T = true) 
       | ext id sz s => simp at hs'
     · rw [hel] at hs'; simp at hs'
   popIter := by intro e c; exact HInv.popIter_fst S e c
+
+theorem opsSpec (S : OpsSpec T L D cfg o Inv rr) (hT : legalThreshold T = true) (hc : CfgFor cfg T L) :
+    OpsSpec T L D cfg (HkeyElems.ops o) (HInv T L D o Inv rr) (rr + 1) where
+  toOpsStruct := opsStruct S.toOpsStruct
   newWith := by
     intro ℓ path x hℓ hx hp
     have hlev : ¬ (ℓ ≥ cfg.L) := by rw [hc.hL]; omega
@@ -100,6 +105,13 @@ theorem elemsInv_succ_eq (T L : Nat) (D : DigestFn L) (r : Nat) :
     ElemsInv T L D (r + 1) = HInv T L D (MElems.ops r) (ElemsInv T L D r) r := by
   funext ℓ path he
   exact propext (elemsInv_succ_iff T L D r ℓ path he)
+
+theorem MElems.opsStruct (T : Nat) {L : Nat} (D : DigestFn L) :
+    ∀ r, OpsStruct T L D (MElems.ops r) (ElemsInv T L D r) r
+  | 0 => SingleElems.opsStruct
+  | r + 1 => by
+    rw [elemsInv_succ_eq]
+    exact HInv.opsStruct (MElems.opsStruct T D r)
 
 theorem MElems.opsSpec {T L : Nat} (D : DigestFn L) {cfg : MCfg} (hT : legalThreshold T = true)
     (hc : CfgFor cfg T L) : ∀ r, OpsSpec T L D cfg (MElems.ops r) (ElemsInv T L D r) r
